@@ -39,10 +39,11 @@ Bit(a, k) == (a \div k) % 2
 And3(a, b) == Bit(a, 1) * Bit(b, 1) + 2 * Bit(a, 2) * Bit(b, 2) + 4 * Bit(a, 4) * Bit(b, 4)
 OrB(x, y) == IF x + y > 0 THEN 1 ELSE 0
 Or3(a, b) == OrB(Bit(a, 1), Bit(b, 1)) + 2 * OrB(Bit(a, 2), Bit(b, 2)) + 4 * OrB(Bit(a, 4), Bit(b, 4))
-MEmpty(m) == CASE m = "prod" -> 1 [] m = "max" -> -1000 [] m = "min" -> 1000 [] m = "and" -> 7 [] m = "or" -> 0
+MEmpty(m) == CASE m = "prod" -> 1 [] m = "max" -> -1000 [] m = "min" -> 1000 [] m = "and" -> 7 [] m \in {"or", "orset"} -> 0
                [] m = "digits9" -> 9 [] OTHER -> 0          \* "sum" and "sumref" (a sum over a reference-typed accumulator)
 MOp(m, a, b) == CASE m = "prod" -> a * b [] m = "max" -> (IF a > b THEN a ELSE b) [] m = "min" -> (IF a < b THEN a ELSE b)
-                  [] m = "and" -> And3(a, b) [] m = "or" -> Or3(a, b) [] m = "digits9" -> a * 10 + b [] OTHER -> a + b
+                  [] m = "and" -> And3(a, b) [] m \in {"or", "orset"} -> Or3(a, b)      \* "orset": the same union over map-typed sets
+                  [] m = "digits9" -> a * 10 + b [] OTHER -> a + b
 RECURSIVE FoldL(_,_,_)
 FoldL(m, a, s) == IF s = <<>> THEN a ELSE FoldL(m, MOp(m, a, Head(s)), Tail(s))
 
